@@ -644,6 +644,11 @@ type RequestCtx struct {
 	timeoutCh       chan struct{}
 	timeoutTimer    *time.Timer
 
+	// timeoutMu orders EarlyHints, which writes to the connection from the
+	// handler's goroutine, against the moment a timeout response takes the
+	// request over.
+	timeoutMu sync.Mutex
+
 	hijackHandler HijackHandler
 	formValueFunc FormValueFunc
 	fbr           firstByteReader
@@ -679,6 +684,15 @@ type RequestCtx struct {
 //	   ctx.SetBody([]byte("<html><head></head><body><h1>Hello from Fasthttp</h1></body></html>"))
 //	}
 func (ctx *RequestCtx) EarlyHints() error {
+	// Once the request has been answered by a timeout response the connection
+	// belongs to the server loop again: a handler that is still running must
+	// not write to it any more.
+	ctx.timeoutMu.Lock()
+	defer ctx.timeoutMu.Unlock()
+	if ctx.timeoutResponse != nil {
+		return errors.New("cannot write early hints for a timed out request")
+	}
+
 	links := ctx.Response.Header.PeekAll(b2s(strLink))
 	if len(links) > 0 {
 		c := acquireWriter(ctx)
@@ -1719,7 +1733,9 @@ func (ctx *RequestCtx) TimeoutErrorWithCode(msg string, statusCode int) {
 func (ctx *RequestCtx) TimeoutErrorWithResponse(resp *Response) {
 	respCopy := &Response{}
 	resp.CopyTo(respCopy)
+	ctx.timeoutMu.Lock()
 	ctx.timeoutResponse = respCopy
+	ctx.timeoutMu.Unlock()
 }
 
 // NextProto adds nph to be processed when key is negotiated when TLS
